@@ -1,6 +1,7 @@
 import CV.Proofs.CoreMatch
 import CV.Proofs.InvCacheMain
 import CV.Proofs.InvForest
+import CV.Proofs.ClassTable
 /-
 C01 - matching layer.  `collect` is the model of `Manager.getHandlers`; the dispatcher calls
 it with fuel `comps.length + 1` whenever it rebuilds a cache entry.  These theorems say that
@@ -186,5 +187,399 @@ theorem cache_live_window_witness :
     · revert hd; decide +kernel
     · have := he (⟨1, []⟩, [.star]) [] (by decide +kernel)
       revert this; decide +kernel
+
+/-! ### class layer: the handler table of an instance, derived from the class statements
+
+`CV/Model/ClassTable.lean` models `handler()`, `HandlerMetaClass`, the C3 linearisation of the `class`
+statement, `BaseComponent.__new__` (copies of the direct bases' own handlers as instance attributes
+`<Base>_<name>`) and `BaseComponent.__init__` (`getmembers(self)` + `addHandler`).
+`effectiveHandlers cs c` is the set of handlers an instance of `c` installs when the class statements `cs`
+have been executed.  The theorems below characterise it declaratively and connect it to `collect`. -/
+
+open CV.ClassTable
+
+/-- **Implicit method handlers.**  After the class statement an entry of `C.__dict__` is a handler with data
+    `i` iff it was declared with `@handler(...)` carrying exactly `i`, or it is an undecorated callable
+    (`plain`; not `handler(False)`, not data) of a class with `Component` among its ancestors whose name does
+    not start with `_` - then it listens to its own name, priority 0, the component's channel, no override. -/
+theorem class_dict_handler_iff (cs : Classes) (c k : Str) (i : HInfo) :
+    (k, Attr.handler i) ∈ ownDict cs c ↔
+      ∃ d m, decl? cs c = some d ∧ m ∈ d.members ∧ m.name = k ∧
+        (m.kind = .handler i ∨
+         (m.kind = .plain ∧ isMeta cs c = true ∧ underscore k = false ∧ i = implicitInfo k)) := by
+  unfold ownDict
+  cases hd : decl? cs c with
+  | none => simp
+  | some d =>
+    simp only [List.mem_map, Prod.mk.injEq, Option.some.injEq]
+    constructor
+    · rintro ⟨m, hm, rfl, ha⟩
+      refine ⟨d, m, rfl, hm, rfl, ?_⟩
+      unfold attrOf at ha
+      cases hk : m.kind with
+      | handler j => rw [hk] at ha; simp only [Attr.handler.injEq] at ha; left; rw [ha]
+      | plain =>
+        rw [hk] at ha
+        simp only at ha
+        split at ha
+        · rename_i hc
+          simp only [Bool.and_eq_true, Bool.not_eq_eq_eq_not, Bool.not_true] at hc
+          simp only [Attr.handler.injEq] at ha
+          right; exact ⟨rfl, hc.1, hc.2, ha.symm⟩
+        · cases ha
+      | noHandler => rw [hk] at ha; cases ha
+      | data => rw [hk] at ha; cases ha
+    · rintro ⟨d', m, hd', hm, rfl, h⟩
+      subst hd'
+      refine ⟨m, hm, rfl, ?_⟩
+      unfold attrOf
+      rcases h with h | ⟨h, hmeta, hu, rfl⟩
+      · rw [h]
+      · rw [h]; simp [hmeta, hu]
+
+/-- non-vacuity: `class K(Component): def go(self): ...; def _p(self): ...` - `go` is a handler, `_p` is not -/
+example :
+    let cs : Classes := [{ name := "K".toList, bases := [compName],
+                           members := [⟨"go".toList, .plain⟩, ⟨"_p".toList, .plain⟩] }]
+    effectiveHandlers cs "K".toList = [mkRecord "K".toList "go".toList (implicitInfo "go".toList)] := by decide
+
+/-- **The effective handler set, declaratively** (full strength, no hypothesis).  A record is installed on an
+    instance of `c` iff it is
+    * a handler *visible through the MRO*: `b` is the first class of `c.__mro__` whose own dict has the name
+      `k`, that entry is a handler, and no `<Base>_<name>` copy made by `__new__` carries the name `k` (an
+      instance attribute would shadow it); or
+    * a *copy*: the own handler `k` of a direct base `b`, not overridden by an own handler `k` of `c` with
+      `override=True`, and no later copy has the same attribute name `<b>_<k>`.
+    Consequences that can be read off: a handler of a grand-base that is shadowed by a non-handler (or by any
+    redefinition) in between is not visible and - not being in a *direct* base - not copied: it disappears;
+    a direct base's handler stays next to the subclass's own handler of the same name unless `override=True`. -/
+theorem effective_iff (cs : Classes) (c : Str) (r : HandlerRecord) :
+    r ∈ effectiveHandlers cs c ↔
+      (∃ b k i, VisibleIn cs (mro cs c) b k (.handler i) ∧ (∀ p ∈ copies cs c, p.1 ≠ k) ∧ r = mkRecord b k i) ∨
+      (∃ b k i, CopiedFrom cs c b k i ∧ LastWrite (copies cs c) (copyName b k) ⟨b, k, .handler i⟩ ∧
+        r = mkRecord b k i) := by
+  rw [mem_effective]
+  constructor
+  · rintro ⟨n, f, hg, hr⟩
+    obtain ⟨i, hi, rfl⟩ := (record?_eq_some_iff f r).mp hr
+    rcases (getAttr_eq_some_iff cs c n f).mp hg with hl | ⟨hno, b, a, hv, rfl⟩
+    · right
+      obtain ⟨b, k, j, hc, rfl, rfl⟩ := (mem_copies_iff cs c n f).mp hl.mem
+      simp only [Attr.handler.injEq] at hi
+      subst hi
+      exact ⟨b, k, j, hc, hl, rfl⟩
+    · left
+      simp only at hi
+      subst hi
+      exact ⟨b, n, i, hv, hno, rfl⟩
+  · rintro (⟨b, k, i, hv, hno, rfl⟩ | ⟨b, k, i, _, hl, rfl⟩)
+    · exact ⟨k, ⟨b, k, .handler i⟩, (getAttr_eq_some_iff cs c k _).mpr (Or.inr ⟨hno, b, _, hv, rfl⟩),
+        (record?_eq_some_iff _ _).mpr ⟨i, rfl, rfl⟩⟩
+    · exact ⟨copyName b k, ⟨b, k, .handler i⟩, (getAttr_eq_some_iff cs c _ _).mpr (Or.inl hl),
+        (record?_eq_some_iff _ _).mpr ⟨i, rfl, rfl⟩⟩
+
+/-- the attribute names `<Base>_<name>` that `__new__` creates are pairwise different and none of them is an
+    attribute of a class of the MRO (true of every hierarchy whose member names do not imitate the pattern) -/
+def NoClash (cs : Classes) (c : Str) : Prop :=
+  ((copies cs c).map (·.1)).Nodup ∧ ∀ p ∈ copies cs c, ∀ b ∈ mro cs c, ownLookup cs b p.1 = none
+
+/-- **... in the usual case**: visible through the MRO, or own handler of a direct base not overridden.
+
+    `_partial`: carries `NoClash`.  The statement without it is false (`copy_shadows_own_handler_witness`); the
+    full-strength characterisation, with the two shadowing clauses spelled out, is `effective_iff`. -/
+theorem effective_iff_noclash_partial (cs : Classes) (c : Str) (hc : NoClash cs c) (r : HandlerRecord) :
+    r ∈ effectiveHandlers cs c ↔
+      (∃ b k i, VisibleIn cs (mro cs c) b k (.handler i) ∧ r = mkRecord b k i) ∨
+      (∃ b k i, CopiedFrom cs c b k i ∧ r = mkRecord b k i) := by
+  rw [effective_iff]
+  constructor
+  · rintro (⟨b, k, i, hv, _, hr⟩ | ⟨b, k, i, hcp, _, hr⟩)
+    · exact Or.inl ⟨b, k, i, hv, hr⟩
+    · exact Or.inr ⟨b, k, i, hcp, hr⟩
+  · rintro (⟨b, k, i, hv, hr⟩ | ⟨b, k, i, hcp, hr⟩)
+    · refine Or.inl ⟨b, k, i, hv, ?_, hr⟩
+      intro p hp hk
+      have := hc.2 p hp b hv.mem.1
+      obtain ⟨_, _, _, _, hb⟩ := hv
+      rw [hk, hb] at this
+      cases this
+    · refine Or.inr ⟨b, k, i, hcp, ?_, hr⟩
+      exact lastWrite_of_nodup hc.1 ((mem_copies_iff cs c _ _).mpr ⟨b, k, i, hcp, rfl, rfl⟩)
+
+/-- hierarchy used for non-vacuity: `G` (foo, bar handlers) <- `M` (redefines `foo` undecorated, own handler
+    `bar` without override) <- `C` (own handler `bar` with override) -/
+def demo : Classes :=
+  [{ name := "G".toList, bases := [bcName],
+     members := [⟨"foo".toList, .handler { names := ["foo".toList] }⟩, ⟨"bar".toList, .handler { names := ["x".toList] }⟩] },
+   { name := "M".toList, bases := ["G".toList],
+     members := [⟨"foo".toList, .plain⟩, ⟨"bar".toList, .handler { names := ["y".toList] }⟩] },
+   { name := "C".toList, bases := ["M".toList],
+     members := [⟨"bar".toList, .handler { names := ["z".toList], override := true }⟩] }]
+
+example : NoClash demo "M".toList ∧ NoClash demo "C".toList := by
+  unfold NoClash; decide
+
+/-- the quirks, computed: an instance of `M` runs `G.foo` (copy), `G.bar` (copy) and `M.bar`; an instance of
+    `C` runs only `C.bar` - `M.bar` is overridden, `G.foo` is shadowed by `M`'s undecorated `foo` and `G` is not
+    a direct base, `G.bar` likewise -/
+example :
+    effectiveHandlers demo "M".toList =
+      [mkRecord "G".toList "foo".toList { names := ["foo".toList] }, mkRecord "G".toList "bar".toList { names := ["x".toList] },
+       mkRecord "M".toList "bar".toList { names := ["y".toList] }] ∧
+    effectiveHandlers demo "C".toList = [mkRecord "C".toList "bar".toList { names := ["z".toList], override := true }] := by
+  decide
+
+/-- why `effective_iff` needs the two shadowing clauses: with `class B: @handler('e') def foo`, and
+    `class C(B): @handler('e') def B_foo`, the copy of `B.foo` is stored on the instance under the name `B_foo`
+    and hides `C`'s own handler `B_foo`, which is visible through the MRO but never installed -/
+theorem copy_shadows_own_handler_witness :
+    let cs : Classes :=
+      [{ name := "B".toList, bases := [bcName], members := [⟨"foo".toList, .handler { names := ["e".toList] }⟩] },
+       { name := "C".toList, bases := ["B".toList], members := [⟨"B_foo".toList, .handler { names := ["e".toList] }⟩] }]
+    VisibleIn cs (mro cs "C".toList) "C".toList "B_foo".toList (.handler { names := ["e".toList] }) ∧
+    mkRecord "C".toList "B_foo".toList { names := ["e".toList] } ∉ effectiveHandlers cs "C".toList ∧
+    ¬ NoClash cs "C".toList := by
+  refine ⟨⟨[], ["B".toList, bcName], by decide, by decide, by decide⟩, by decide, ?_⟩
+  intro h
+  exact absurd (h.2 _ (by decide : ("B_foo".toList, (⟨"B".toList, "foo".toList, .handler { names := ["e".toList] }⟩ : Fn)) ∈ _)
+    "C".toList (by decide)) (by decide)
+
+/-- **No duplicates**: a handler record is installed once (the same function reached under two attribute
+    names - as `foo` through the MRO and as the copy `G_foo` - is one bound method in the `_handlers` sets) -/
+theorem effective_nodup (cs : Classes) (c : Str) : (effectiveHandlers cs c).Nodup :=
+  nodup_eraseDups' _ _ (Nat.le_refl _)
+
+/-- every installed record is a handler entry of the class body it names (nothing is invented) -/
+theorem effective_sound (cs : Classes) (c : Str) (r : HandlerRecord) (h : r ∈ effectiveHandlers cs c) :
+    ∃ i, (r.meth, Attr.handler i) ∈ ownDict cs r.cls ∧ r = mkRecord r.cls r.meth i ∧
+      (r.cls ∈ mro cs c ∨ r.cls ∈ basesOf cs c) := by
+  rcases (effective_iff cs c r).mp h with ⟨b, k, i, hv, _, rfl⟩ | ⟨b, k, i, hcp, _, rfl⟩
+  · exact ⟨i, hv.mem.2, rfl, Or.inl hv.mem.1⟩
+  · exact ⟨i, hcp.2.1, rfl, Or.inr hcp.1⟩
+
+/-- **`override=True` removes the base's handler of that name**: if `c` (a successfully created class) has an
+    own handler `k` with `override=True`, no function named `k` of any *other* class is installed on an
+    instance of `c` - neither through the MRO nor as a copy. -/
+theorem override_removes (cs : Classes) (c k : Str) (i : HInfo) (hm : mro cs c ≠ [])
+    (hown : ownLookup cs c k = some (.handler i)) (hov : i.override = true)
+    (r : HandlerRecord) (hr : r ∈ effectiveHandlers cs c) (hk : r.meth = k) : r.cls = c := by
+  obtain ⟨rest, hmro⟩ := mro_head cs c hm
+  rcases (effective_iff cs c r).mp hr with ⟨b, k', j, hv, _, rfl⟩ | ⟨b, k', j, hcp, _, rfl⟩
+  · simp only [mkRecord] at hk ⊢
+    subst hk
+    obtain ⟨pre, post, heq, hpre, _⟩ := hv
+    rw [hmro] at heq
+    cases pre with
+    | nil => simp only [List.nil_append, List.cons.injEq] at heq; exact heq.1.symm
+    | cons q pre =>
+      simp only [List.cons_append, List.cons.injEq] at heq
+      have := hpre q (by simp)
+      rw [← heq.1, hown] at this
+      cases this
+  · simp only [mkRecord] at hk
+    subst hk
+    have : overridden cs c k' = true := by unfold overridden; rw [hown]; exact hov
+    rw [hcp.2.2] at this
+    cases this
+
+/-- **... and exactly that one**: for a direct base `b ≠ c` of a successfully created class `c` without
+    copy-name clashes, the own handler `k` of `b` is installed on an instance of `c` iff `c` has no own handler
+    `k` with `override=True`.  (So without `override` both run; other handlers of the base are untouched by an
+    override of `k`.)
+
+    `_partial`: `NoClash` is needed for the direction "not overridden -> installed" only (a later copy with the
+    same attribute name would replace this one; same witness); "overridden -> not installed" is
+    `override_removes`, at full strength. -/
+theorem base_handler_iff_not_overridden_partial (cs : Classes) (c b k : Str) (i : HInfo) (hm : mro cs c ≠ [])
+    (hc : NoClash cs c) (hb : b ∈ basesOf cs c) (hne : b ≠ c) (hk : (k, Attr.handler i) ∈ ownDict cs b) :
+    mkRecord b k i ∈ effectiveHandlers cs c ↔ overridden cs c k = false := by
+  constructor
+  · intro hr
+    cases ho : overridden cs c k with
+    | false => rfl
+    | true =>
+      unfold overridden at ho
+      cases hl : ownLookup cs c k with
+      | none => rw [hl] at ho; cases ho
+      | some a =>
+        rw [hl] at ho
+        cases a with
+        | handler j => exact absurd (override_removes cs c k j hm hl ho _ hr rfl) hne
+        | callable => cases ho
+        | data => cases ho
+  · intro ho
+    exact (effective_iff_noclash_partial cs c hc _).mpr (Or.inr ⟨b, k, i, ⟨hb, hk, ho⟩, rfl⟩)
+
+/-- non-vacuity of the two override theorems on `demo` (`C` overrides `bar` of its direct base `M`; `M` does
+    not override `bar` of `G`) -/
+example :
+    mro demo "C".toList ≠ [] ∧ ownLookup demo "C".toList "bar".toList = some (.handler { names := ["z".toList], override := true }) ∧
+    NoClash demo "M".toList ∧ "G".toList ∈ basesOf demo "M".toList ∧
+    ("bar".toList, Attr.handler { names := ["x".toList] }) ∈ ownDict demo "G".toList ∧ overridden demo "M".toList "bar".toList = false := by
+  unfold NoClash; decide
+
+/-- a created class heads its own MRO (what `override_removes` uses of the linearisation) -/
+theorem class_mro_head (cs : Classes) (c : Str) (h : mro cs c ≠ []) : ∃ rest, mro cs c = c :: rest :=
+  mro_head cs c h
+
+/-- **C3 guarantees** for every class statement that was executed (all statements of `cs` accepted): the class
+    heads its MRO, its direct bases appear behind it in the order written (local precedence), and the MRO of
+    every direct base is a subsequence of it (monotonicity) - so "first class of the MRO that defines `k`"
+    respects every base's own lookup order. -/
+theorem mro_c3 (cs : Classes) (hl : (linearize cs).isSome = true) (d : ClassDecl) (hd : d ∈ cs) :
+    ∃ rest, mro cs d.name = d.name :: rest ∧ d.bases.Sublist rest ∧
+      ∀ b ∈ d.bases, mro cs b ≠ [] ∧ (mro cs b).Sublist rest := by
+  obtain ⟨t, ht⟩ := Option.isSome_iff_exists.mp hl
+  obtain ⟨rest, h1, h2, h3⟩ := linearizeFrom_spec cs builtinMros t ht d hd
+  refine ⟨rest, by simp [mro, ht, h1], h2, ?_⟩
+  intro b hb
+  obtain ⟨m, hm, hs⟩ := h3 b hb
+  have hmb : mro cs b = m := by simp [mro, ht, hm]
+  have hne : m ≠ [] := by
+    intro h0
+    subst h0
+    have := linearizeFrom_inv (fun p => ∃ r, p.2 = p.1 :: r) (fun acc d l h => mroFor_head acc d l h) cs builtinMros t ht
+      (by intro p hp; simp only [builtinMros, List.mem_cons, List.not_mem_nil, or_false] at hp
+          rcases hp with rfl | rfl
+          · exact ⟨[], rfl⟩
+          · exact ⟨[bcName], rfl⟩) (b, []) (lookup_mem b [] t hm)
+    obtain ⟨r, hr⟩ := this
+    cases hr
+  rw [hmb]
+  exact ⟨hne, hs⟩
+
+/-- non-vacuity: `demo` is accepted -/
+example : (linearize demo).isSome = true := by decide
+
+/-- C3 on a diamond and on an inconsistent order (`class X(BaseComponent, Component)` raises TypeError) -/
+example :
+    let cs : Classes :=
+      [{ name := "A".toList, bases := [compName], members := [] }, { name := "B".toList, bases := ["A".toList], members := [] },
+       { name := "D".toList, bases := ["A".toList], members := [] }, { name := "E".toList, bases := ["B".toList, "D".toList], members := [] }]
+    mro cs "E".toList = ["E".toList, "B".toList, "D".toList, "A".toList, compName, bcName] ∧
+    linearize [{ name := "X".toList, bases := [bcName, compName], members := [] }] = none := by decide
+
+/-! ### link to the matching layer -/
+
+/-- the statement's rule for one class-derived record of component `x` listening on `compChan` -/
+def Receives (E : Enc) (compChan : Str) (x : Nat) (r : HandlerRecord) (name : Name) (target : Chan) : Prop :=
+  (r.names = [] ∨ name ∈ r.names.map E.name) ∧
+  (target = .star ∨ (r.chan.map E.toChan).getD (E.toChan compChan) = .star ∨
+   (r.chan.map E.toChan).getD (E.toChan compChan) = target ∨ target = .inst x)
+
+/-- **Which class-derived handlers receive an event.**  `newComponent E cs c s` is `c()` in state `s`: a new
+    component whose `_handlers` / `_globals` hold the `addHandler` rows of `effectiveHandlers cs c`.  `collect`
+    (= `getHandlers`, cf. `collect_iff`) on it returns handler id `s.hs.length + i` iff the `i`-th effective
+    record is declared for the name (or for all events) and its channel - its own, else the class-derived
+    channel of the instance - matches the target by the statement's rule. -/
+theorem class_receives_iff (E : Enc) (cs : Classes) (c : Str) (s : St) (n : Nat) (name : Name) (target : Chan) (h : Nat) :
+    h ∈ collect (newComponent E cs c s) (n + 1) s.comps.length name target ↔
+      ∃ i r, (effectiveHandlers cs c)[i]? = some r ∧ h = s.hs.length + i ∧
+        Receives E (instChannel cs c) s.comps.length r name target := by
+  rw [collect_iff]
+  have hcomp : (newComponent E cs c s).comps.getD s.comps.length dfltComp =
+      { parent := s.comps.length, root := s.comps.length, chan := E.toChan (instChannel cs c), dirty := true,
+        htab := tableOf E s.hs.length 0 (effectiveHandlers cs c),
+        globals := globalsOf s.hs.length 0 (effectiveHandlers cs c) } := by
+    simp [newComponent, List.getD_eq_getElem?_getD]
+  have hh : ∀ i r, (effectiveHandlers cs c)[i]? = some r →
+      (newComponent E cs c s).hs.getD (s.hs.length + i) dfltHandler = toHandler E s.comps.length r := by
+    intro i r hi
+    simp only [newComponent, List.getD_eq_getElem?_getD]
+    rw [List.getElem?_append_right (by omega)]
+    simp [hi]
+  have hreach : ∀ d, ReachIn (newComponent E cs c s) n s.comps.length d → d = s.comps.length := by
+    intro d hd
+    cases hd with
+    | here => rfl
+    | step _ _ e _ he _ => rw [hcomp] at he; simp at he
+  constructor
+  · rintro ⟨d, hd, hm⟩
+    have := hreach d hd
+    subst this
+    unfold matchesAt at hm
+    rw [hcomp] at hm
+    simp only [installedFor] at hm
+    rcases hm with ⟨hin, hch⟩ | hg
+    · have key : ∀ key, (key, h) ∈ tableOf E s.hs.length 0 (effectiveHandlers cs c) → (key = none ∨ key = some name) →
+          ∃ i r, (effectiveHandlers cs c)[i]? = some r ∧ h = s.hs.length + i ∧
+            Receives E (instChannel cs c) s.comps.length r name target := by
+        intro key hrow hkey
+        obtain ⟨i, r, hi, rfl, hrows⟩ := (mem_tableOf E _ key h _ 0).mp hrow
+        simp only [Nat.zero_add] at hrows hch ⊢
+        refine ⟨i, r, hi, rfl, ?_, ?_⟩
+        · unfold htabRows at hrows
+          split at hrows
+          · rename_i hemp; left; simpa using hemp
+          · right
+            simp only [List.mem_map, Prod.mk.injEq, and_true] at hrows
+            obtain ⟨nm, hnm, hk⟩ := hrows
+            rcases hkey with rfl | rfl
+            · cases hk
+            · simp only [Option.some.injEq] at hk
+              exact List.mem_map.mpr ⟨nm, hnm, hk⟩
+        · rw [hh i r hi] at hch
+          simpa [chanOk, toHandler, or_assoc] using hch
+      rcases hin with hin | hin
+      · exact key none hin (Or.inl rfl)
+      · exact key (some name) hin (Or.inr rfl)
+    · obtain ⟨i, r, hi, rfl, hn, hc⟩ := (mem_globalsOf _ h _ 0).mp hg
+      simp only [Nat.zero_add]
+      refine ⟨i, r, hi, rfl, Or.inl hn, Or.inr (Or.inl ?_)⟩
+      rw [hc]; simp [Enc.toChan]
+  · rintro ⟨i, r, hi, rfl, hnm, hch⟩
+    refine ⟨s.comps.length, ReachIn.here _ _, ?_⟩
+    unfold matchesAt
+    rw [hcomp]
+    simp only [installedFor]
+    by_cases hg : r.names = [] ∧ r.chan = some star
+    · right
+      exact (mem_globalsOf _ _ _ 0).mpr ⟨i, r, hi, by simp, hg.1, hg.2⟩
+    · left
+      constructor
+      · rcases hnm with hn | hn
+        · left
+          refine (mem_tableOf E _ none _ _ 0).mpr ⟨i, r, hi, by simp, ?_⟩
+          unfold htabRows
+          have : ¬ r.chan = some star := fun hc => hg ⟨hn, hc⟩
+          simp [hn, this]
+        · right
+          refine (mem_tableOf E _ (some name) _ _ 0).mpr ⟨i, r, hi, by simp, ?_⟩
+          unfold htabRows
+          have hne : r.names ≠ [] := by intro h0; rw [h0] at hn; simp at hn
+          obtain ⟨nm, hnm, hk⟩ := List.mem_map.mp hn
+          simp only [List.isEmpty_iff, hne, ↓reduceIte, List.mem_map, Prod.mk.injEq, and_true]
+          exact ⟨nm, hnm, by rw [hk]⟩
+      · rw [hh i r hi]
+        simpa [chanOk, toHandler, or_assoc] using hch
+
+/-- **Corollary: which handlers of which classes receive an event.**  For an instance of a class without
+    copy-name clashes: handler id `s.hs.length + i` is collected for `(name, target)` iff the `i`-th effective
+    record is the function `b.k` with declaration `info`, where `b.k` is a handler visible through `c`'s MRO or
+    an own handler of a direct base of `c` that `c` does not override, and it is declared for the name (or for
+    all events) on a matching channel.  `_partial`: `NoClash` as in `effective_iff_noclash_partial`; the statement
+    without it is `class_receives_iff` + `effective_iff`. -/
+theorem class_delivery_partial (E : Enc) (cs : Classes) (c : Str) (hc : NoClash cs c) (s : St) (n : Nat)
+    (name : Name) (target : Chan) (h : Nat) :
+    h ∈ collect (newComponent E cs c s) (n + 1) s.comps.length name target ↔
+      ∃ i b k info, (effectiveHandlers cs c)[i]? = some (mkRecord b k info) ∧ h = s.hs.length + i ∧
+        (VisibleIn cs (mro cs c) b k (.handler info) ∨ CopiedFrom cs c b k info) ∧
+        Receives E (instChannel cs c) s.comps.length (mkRecord b k info) name target := by
+  rw [class_receives_iff]
+  constructor
+  · rintro ⟨i, r, hi, rfl, hrec⟩
+    have hmem : r ∈ effectiveHandlers cs c := List.mem_of_getElem? hi
+    rcases (effective_iff_noclash_partial cs c hc r).mp hmem with ⟨b, k, info, hv, rfl⟩ | ⟨b, k, info, hcp, rfl⟩
+    · exact ⟨i, b, k, info, hi, rfl, Or.inl hv, hrec⟩
+    · exact ⟨i, b, k, info, hi, rfl, Or.inr hcp, hrec⟩
+  · rintro ⟨i, b, k, info, hi, rfl, _, hrec⟩
+    exact ⟨i, _, hi, rfl, hrec⟩
+
+/-- non-vacuity / sanity: an instance of `M` (see `demo`) in the empty state, event `foo` on any channel:
+    exactly the copy of `G.foo` (record 0) is collected; event `x`: `G.bar` (record 1) -/
+example :
+    let E : Enc := { name := fun s => ⟨s.length, []⟩, chan := fun s => s.length }
+    collect (newComponent E demo "M".toList {}) 2 0 ⟨3, []⟩ .star = [0] ∧
+    collect (newComponent E demo "M".toList {}) 2 0 ⟨1, []⟩ (.named 5) = [1, 2] := by decide
 
 end CV.C01
